@@ -164,3 +164,56 @@ Fixpoint e2ev_ok (t : vtab) (tr : list (vop * vobs)) : bool :=
 Definition e2ev_violates (c : e2ev_case_t) : bool := negb (e2ev_ok [] c).
 Definition e2ev_mismatches (cs : list e2ev_case_t) : list nat := find_idx e2ev_mismatch cs.
 Definition e2ev_violations (cs : list e2ev_case_t) : list nat := find_idx e2ev_violates cs.
+
+(* ---- end-to-end cases on index groups + virtual channels ---- *)
+(* ops with observations, then per group 1..3 what Read returned: (index stamps, data values) *)
+Definition e2eg_case_t : Type := list (gop * eobs) * list (list Z * list Z).
+
+Definition e2eg_mismatch (c : e2eg_case_t) : bool :=
+  let '(obs, st) := e2eg_run ginit (map fst c.1) in
+  negb (bool_decide (obs = map snd c.1) && bool_decide (map (fun p => (p.2, p.2)) st = c.2)).
+
+(* the property on the implementation's observations. [t]: (unit, writer, authority) of the open
+   writers in open order. A writer may write a group iff it is the highest-authority /
+   earliest-open writer on it, a virtual channel iff nobody on it has a higher authority. A
+   write is reported authorized iff that holds for every unit of the frame the writer holds;
+   the samples of exactly the allowed group writes are what Read returns. *)
+Definition gleaderw (t : vtab) (k : N) : option (N * N) :=
+  wleader (map (fun e => (e.1.2, e.2)) (filter (fun e => e.1.1 =? k) t)).
+Definition gallowed (t : vtab) (w k : N) : bool :=
+  match vauth t k w with
+  | None => true
+  | Some a => if ushared k then vmax t k <=? a
+              else match gleaderw t k with Some m => m.1 =? w | None => false end
+  end.
+
+Fixpoint e2eg_ok (t : vtab) (acc : list (N * list Z)) (tr : list (gop * eobs))
+         (rd : list (list Z * list Z)) : bool :=
+  match tr with
+  | [] => bool_decide (map (fun p => (p.2, p.2)) acc = rd)
+  | (o, (st, az, ts)) :: rest =>
+      match o with
+      | GOpen w _ units _ =>
+          e2eg_ok (if st =? 0 then t ++ map (fun p => (p.1, w, p.2)) units else t) acc rest rd
+      | GSet w units =>
+          e2eg_ok (if st =? 0 then
+                     map (fun e => match filter (fun p => (p.1 =? e.1.1)) units with
+                                   | p :: _ => if e.1.2 =? w then (e.1.1, w, p.2) else e
+                                   | [] => e end) t
+                   else t) acc rest rd
+      | GClose w => e2eg_ok (if st =? 0 then filter (fun e => negb (e.1.2 =? w)) t else t) acc rest rd
+      | GWrite w keys _ =>
+          if st =? 0 then
+            let mine := filter (fun k => is_some (vauth t k w)) keys in
+            let should := forallb (gallowed t w) mine in
+            let acc' := map (fun p => if existsb (N.eqb p.1) mine && gallowed t w p.1
+                                      then (p.1, p.2 ++ ts) else p) acc in
+            if bool_decide (az = if should then 1 else 0) then e2eg_ok t acc' rest rd else false
+          else e2eg_ok t acc rest rd
+      end
+  end.
+
+Definition e2eg_violates (c : e2eg_case_t) : bool :=
+  negb (e2eg_ok [] [(1, []); (2, []); (3, [])] c.1 c.2).
+Definition e2eg_mismatches (cs : list e2eg_case_t) : list nat := find_idx e2eg_mismatch cs.
+Definition e2eg_violations (cs : list e2eg_case_t) : list nat := find_idx e2eg_violates cs.
